@@ -66,6 +66,8 @@ func expandC06(_ *testing.T, seed uint64, tier string) []*core.Plan {
 		p.SetKnob("queue", r.Pick(100, 100, 100, 20))
 		p.SetKnob("inflight", r.Pick(10, 10, 3, 1))
 		p.SetKnob("gate", r.Pick(0, 0, 1))
+		p.SetKnob("park", r.Pick(0, 0, 3, 8))
+		p.SetKnob("pace", r.Pick(6, 6, 1)) // weight of issuing the next item: low = the system progresses between items
 		for s := 1; s <= nslots; s++ {
 			p.Items = append(p.Items, core.Item{K: "connect", P: s, S: fmt.Sprintf("c%d", s), A: 1})
 			connected[s] = true
@@ -260,6 +262,7 @@ func runC06(t *testing.T, p *core.Plan) *core.Result {
 	cfg.QueueSize = p.Knob("queue", 100)
 	cfg.Inflight = p.Knob("inflight", 10)
 	cfg.GateBackend = p.Knob("gate", 0) == 1
+	cfg.ParkN = p.Knob("park", 0)
 	// pipelining more QoS 2 publishes than publish tokens stalls the connection
 	// until the token timeout by design; that regime belongs to C14/C16
 	cfg.ParPublishes, cfg.ParSubscribes = 128, 128
@@ -498,16 +501,20 @@ func expStr(exp []expect) string {
 
 func runC06Concurrent(w *World, sl *Slots, p *core.Plan, res *core.Result) {
 	next := 0
+	pace := p.Knob("pace", 6)
 	for steps := 0; steps < 20000; steps++ {
 		wait()
 		w.Steps++
 		var acts []string
 		var wt []int
 		if next < len(p.Items) {
-			acts, wt = append(acts, "item"), append(wt, 6)
+			acts, wt = append(acts, "item"), append(wt, pace)
 		}
 		if len(w.parked) > 0 {
 			acts, wt = append(acts, "gate"), append(wt, 5)
+		}
+		if core.ParkedCount() > 0 {
+			acts, wt = append(acts, "unpark"), append(wt, 2)
 		}
 		inflight := false
 		for _, pr := range w.Peers[1:] {
@@ -533,6 +540,8 @@ func runC06Concurrent(w *World, sl *Slots, p *core.Plan, res *core.Result) {
 			pk := w.parked[i]
 			w.parked = append(w.parked[:i], w.parked[i+1:]...)
 			close(pk.ch)
+		case "unpark":
+			core.ReleaseParked(w.Sched)
 		case "net":
 			// one random direction of one random link
 			var c []func()
@@ -603,6 +612,49 @@ func judgeC06Intervals(w *World, sl *Slots, res *core.Result) {
 			}
 		}
 	}
+	// wire-level view of unsubscriptions: the k-th Unsubscribe call of a
+	// connection belongs to the k-th UNSUBSCRIBE its peer sent; the moment the
+	// peer received the matching UNSUBACK is when the unsubscribe "was
+	// acknowledged" in the sense of the property
+	unsubAcked := map[*BkCall]uint64{}
+	pubSentAt := map[int]uint64{}
+	for _, pr := range sl.All {
+		var unsubIDs []packet.ID
+		for _, e := range pr.Sent {
+			switch q := e.P.(type) {
+			case *packet.Unsubscribe:
+				unsubIDs = append(unsubIDs, q.ID)
+			case *packet.Publish:
+				pubSentAt[TagOf(q.Message.Payload)] = e.Seq
+			}
+		}
+		k := 0
+		for _, c := range calls {
+			if c.Call != "Unsubscribe" || c.C != pr.Idx {
+				continue
+			}
+			if k < len(unsubIDs) {
+				for _, e := range pr.Recv {
+					if ua, ok := e.P.(*packet.Unsuback); ok && ua.ID == unsubIDs[k] && e.Seq > c.Enter {
+						unsubAcked[c] = e.Seq
+						break
+					}
+				}
+			}
+			k++
+		}
+	}
+	endedBy := map[*subIv]*BkCall{}
+	for _, c := range calls {
+		if c.Call != "Unsubscribe" {
+			continue
+		}
+		for _, iv := range subs[c.C] {
+			if iv.endEnter == c.Enter {
+				endedBy[iv] = c
+			}
+		}
+	}
 	// what every peer received, by tag
 	got := map[int]map[int][]*packet.Publish{}
 	for _, pr := range sl.All {
@@ -624,10 +676,14 @@ func judgeC06Intervals(w *World, sl *Slots, res *core.Result) {
 		tag := TagOf(c.M.Payload)
 		for _, pr := range sl.All {
 			must, may := false, false
+			ackedBefore := true // every matching subscription had been unsubscribed AND acknowledged before the publish was sent
 			qset := map[int]bool{}
 			for _, iv := range subs[pr.Idx] {
 				if !model.Matches(iv.filter, c.M.Topic) {
 					continue
+				}
+				if u := endedBy[iv]; u == nil || unsubAcked[u] == 0 || pubSentAt[tag] == 0 || unsubAcked[u] > pubSentAt[tag] {
+					ackedBefore = false
 				}
 				m := int(c.M.QOS)
 				if iv.qos < m {
@@ -664,6 +720,9 @@ func judgeC06Intervals(w *World, sl *Slots, res *core.Result) {
 			ctx := fmt.Sprintf("publish #%d on %q q%d by conn %d, backend interval [%d,%d]", tag, c.M.Topic, c.M.QOS, c.C, c.Enter, c.Return)
 			if len(g) > 1 {
 				res.Violate("C06", "C06.unexpected-delivery", "duplicate", fmt.Sprintf("peer %d received %d copies of %s", pr.Idx, len(g), ctx))
+			}
+			if len(g) > 0 && may && ackedBefore {
+				res.Violate("C06", "C06.unexpected-delivery", "after-unsuback", fmt.Sprintf("peer %d received %s although the UNSUBACK for every matching filter had reached it before the message was even sent (subscriptions %s)", pr.Idx, ctx, ivStr(subs[pr.Idx])))
 			}
 			if len(g) > 0 && !may {
 				res.Violate("C06", "C06.unexpected-delivery", "extra", fmt.Sprintf("peer %d received %s but held no matching subscription at any time during the call (subscriptions %s)", pr.Idx, ctx, ivStr(subs[pr.Idx])))
